@@ -45,16 +45,17 @@ Proof. exact counters_forward_crash. Qed.
 Print Assumptions C12_counters_forward_crash.
 
 (* The load-time correction compares with ">" where the window needs ">=": after a crash between
-   putCaches and putNewIDs the cache holds an entry for the very id the counter hands out next.  The
-   id is issued again — to an allocation that was never acknowledged and is in no repo, which is why
-   C12_next_ids_fresh holds nevertheless. *)
+   putCaches and putNewIDs the cache holds an entry for the very id the counter hands out next.  That
+   entry names no node: the start-up drops it (loadVersion0), and the id is issued again — the first
+   allocation was never acknowledged and is in no repo, which is why C12_next_ids_fresh holds, and the
+   id names exactly one uuid afterwards. *)
 Theorem C12_version_id_reissued_after_crash :
   let C := w_conf in
   let '(m, img) := w_state in
   let ws := snd (pstep C m (PNewVersion 1 1 None 12)) in
   match recover C (apply_ws img (firstn 2 ws)) with
   | Ok (mr, _) =>
-    aget 2 (m_v2u mr) = Some 12 /\ m_vid mr = 2 /\
+    aget 2 (m_v2u mr) = None /\ m_vid mr = 2 /\
     (let '(m2, v, _) := new_uuid mr 13 in v = 2 /\ aget 2 (m_v2u m2) = Some 13) /\
     pobserve mr = pobserve m
   | _ => False
